@@ -1026,6 +1026,10 @@ def run(run, model):
     run.try_rule(r03_21, model)
     run.try_rule(r03_22, model)
     run.try_rule(r03_23, model)
+    # a trait call accepted without finding the implementation it runs leaves an ill-typed call in every dump (shared with C17 R17.3 / R17.4)
+    from rules import c17 as _c17
+    run.try_rule(_c17.r17_3, model)
+    run.try_rule(_c17.r17_4, model)
     from rules import c17
     run.try_rule(c17.r17_9, model)
     run.try_rule(c07.r07_4, model)
